@@ -13,17 +13,17 @@ checks = {
     ref="3 C16"),
  "C17": dict(
     technique="stateless model checking of the real code under a controlled cooperative scheduler: all schedules with <= k preemptions of 2-3 thread harnesses, scheduling points at shimmed sync operations, hooked shared accesses and pool operations; vector-clock happens-before race check, sequential-answer oracle and shared-document fingerprint on every schedule; plus the auxiliary free-running pass of the same bodies under the Go race detector that a cooperative scheduler requires for unsynchronised accesses",
-    text="Fifteen harnesses (distinct roots with colliding URLs, ill-formed locations and ids, schemas with ids through one shared cache, private caches, one shared cache, a typed root and a cache shared by the WithRoot entry points, shared read-only document JSON- and gob-encoded and looked up, resolve vs expand, three threads, expansion into the built-in meta-schemas, a loaded meta-schema expanded in place next to references into it, first-ever calls racing on the lazy initialisation in fresh processes) are explored exhaustively up to 2 (quick) / 3 (thorough) preemptions; no schedule may deadlock, give a thread an answer different from its sequential answer (computed in a fresh process), contain two conflicting unordered accesses to a hooked location, modify a document the threads only share for reading, or change package state. The same bodies, each four times over, then run free under the Go race detector (25 / 150 rounds at GOMAXPROCS 2 and 16); a detector report is a violation.",
+    text="Sixteen harnesses (distinct roots with colliding URLs, ill-formed locations and ids, schemas with ids through one shared cache, loaders that expand another document before they answer, private caches, one shared cache, a typed root and a cache shared by the WithRoot entry points, shared read-only document JSON- and gob-encoded and looked up, resolve vs expand, three threads, expansion into the built-in meta-schemas, a loaded meta-schema expanded in place next to references into it, first-ever calls racing on the lazy initialisation in fresh processes) are explored exhaustively up to 2 (quick) / 3 (thorough) preemptions; no schedule may deadlock, no call may fail to return when it runs alone, no schedule may give a thread an answer different from its sequential answer (computed in a fresh process), contain two conflicting unordered accesses to a hooked location, modify a document the threads only share for reading, or change package state. The same bodies, each four times over, then run free under the Go race detector (25 / 150 rounds at GOMAXPROCS 2 and 16); a detector report, or a round that is not over after a minute, is a violation.",
     note="Race check covers package-level variables and map-typed struct fields accessed in package spec; other memory only through answers. Code outside package spec runs atomically between scheduling points. Which map-access sites are scheduling points is decided by a profiling execution (sites where one map is touched by two threads).",
     ref="3 C17"),
  "C19": dict(
     technique="bounded-exhaustive enumeration of documents filtered by an independent validator (python jsonschema Draft-4 on the shipped schema); validity of re-encoding and of successful expansion re-checked by the same validator",
-    text="Every document of the C01 state space embedded to the Swagger root (plus referable targets, explicit $ref states - in-document and into one external document, relative and canonical absolute -, optional members present but empty/false/zero, required strings that are empty, response codes with leading zeros) that the independent validator accepts is re-encoded and expanded by the real code; both outputs must validate again.",
+    text="Every document of the C01 state space embedded to the Swagger root (plus referable targets, explicit $ref states - in-document and into one external document, relative and canonical absolute -, optional members present but empty/false/zero, required strings that are empty, response codes with leading zeros) that the independent validator accepts is re-encoded and expanded by the real code; all outputs - the re-encoding, also of the same text with member names written in \\uXXXX escapes, and the expansion with and without SkipSchemas - must validate again.",
     note="python3-vt + jsonschema is the validity oracle (independent of the Go code). Known findings: an opaque-URI $ref is expanded into the whole root document; empty required strings and leading zeros of response codes are lost by the encoder.",
     ref="3 C19"),
  "C05": dict(
     technique="exhaustive enumeration of every reference (node x location x spelling x escaping x root representation x entry point, plus dangling pointers/documents/root locations) against a reference-model resolver",
-    text="Every node of a document named by 21 hostile member names (among them names that a second round of unescaping maps onto another name) and held at six locations is addressed through every spelling of the URI part, both fragment escapings (the fully escaped one with a reference value decoded from JSON, the other built with the constructor), every Resolve* entry point and every way of supplying the root (typed pointer, typed value, generic JSON, location only); the result must equal the node designated by the reference model's RFC 3986 + RFC 6901 resolution, nested $refs untouched, root unchanged; every dangling pointer (also through a boolean additionalProperties/additionalItems), document or root location must yield an error and a nil result, also with ContinueOnError set.",
+    text="Every node of a document named by 21 hostile member names (among them names that a second round of unescaping maps onto another name) and held at seven locations (one of them the root's own path on another site) is addressed through every spelling of the URI part, both fragment escapings (the fully escaped one with a reference value decoded from JSON, the other built with the constructor), every Resolve* entry point (with and without a base location) and every way of supplying the root (typed pointer, typed value, generic JSON, location only); the result must equal the node designated by the reference model's RFC 3986 + RFC 6901 resolution, nested $refs untouched, root unchanged; every dangling pointer (also through a boolean additionalProperties/additionalItems), document or root location must yield an error and a nil result, also with ContinueOnError set.",
     note="Expectation = designated JSON decoded into the requested Go type and re-encoded (codec losses are C01's). Package-level state is fingerprinted after every call.",
     ref="3 C05"),
  "C09": dict(
@@ -33,7 +33,7 @@ checks = {
     ref="3 C09"),
  "C10": dict(
     technique="exhaustive enumeration of (root graph x referable element x entry point x root representation x cache policy) and two-call histories reusing a cache with another root; reference-model oracles",
-    text="Every definition, parameter and response of every generated root is expanded through every single-element entry point and every way of supplying root and cache; the result (put back at its place) must be bisimilar to the element in the context of that root, its remaining $refs must resolve against that root onto input cycles, and the root document and the option structure must be unchanged.",
+    text="Every definition, parameter and response of every generated root is expanded through every single-element entry point and every way of supplying root and cache (also ExpandSchema without a root, on a schema that is its own root); the result (put back at its place) must be bisimilar to the element in the context of that root, its remaining $refs must resolve against that root onto input cycles, and the root document and the option structure must be unchanged.",
     note="*WithRoot entry points place the root at <cwd>/.root, so references leaving the root are generated in absolute form.",
     ref="3 C10"),
  "C11": dict(
